@@ -279,6 +279,35 @@ func c17Open(a *An, kf *kqFacts) {
 					handsOver = true
 				}
 				goal := handled.or(failed)
+				// an error variable that can only hold the error result of an open(2) of this same descriptor cell (a retry
+				// loop: `fd, err = open(); for err == EINTR { fd, err = open() }; if err != nil { return }`): non-nil
+				// means the descriptor cell holds no descriptor
+				for _, cj := range v.Cond {
+					for _, l := range cj {
+						if l.A.Kind != AkNil || !l.Neg || l.A.V == nil || l.A.Ctx == nil {
+							continue
+						}
+						srcs := valueEdges(l.A.Ctx, l.A.V, dnfTrue())
+						all := len(srcs) > 0
+						for _, e := range srcs {
+							ex, ok := e.V.(*ssa.Extract)
+							isOpenErr := false
+							if ok && ex.Index == 1 {
+								for _, O2 := range opens {
+									if ex.Tuple == ssa.Value(O2.Instr.(*ssa.Call)) && e.Ctx == O2.Ctx && sameFdCell(w, O2, fdPath) {
+										isOpenErr = true
+									}
+								}
+							}
+							if !isOpenErr {
+								all = false
+							}
+						}
+						if all {
+							goal = goal.or(DNF{Conj{l.A.ID(): l}})
+						}
+					}
+				}
 				h, ctr, err := implies(T, goal)
 				if err != nil {
 					a.R.fail("%v", err)
@@ -374,6 +403,21 @@ func guardedByAddSuccess(a *An, at ssa.Instruction) bool {
 		if s := p.Succs[nilIdx]; s == b || s.Dominates(b) {
 			if other := p.Succs[1-nilIdx]; other != b && !other.Dominates(b) {
 				return true
+			}
+		}
+	}
+	return false
+}
+
+// sameFdCell: the descriptor result of the open(2) visited at O is stored into the cell named fdPath.
+func sameFdCell(w *Walker, O *Visit, fdPath string) bool {
+	call := O.Instr.(*ssa.Call)
+	for _, v := range w.Visits {
+		if st, ok := v.Instr.(*ssa.Store); ok && v.Ctx == O.Ctx {
+			if ex, ok := stripConv(st.Val).(*ssa.Extract); ok && ex.Tuple == ssa.Value(call) && ex.Index == 0 {
+				if stripIDs(strings.TrimPrefix(v.Ctx.path(st.Addr), "&")) == fdPath {
+					return true
+				}
 			}
 		}
 	}
@@ -784,6 +828,75 @@ func c17WatchList(a *An, kf *kqFacts) {
 					}
 				}
 			}
+		}
+	}
+	// every release of a watch (path-table delete), from Remove or from the reader, also drops the user mark of that path
+	// under the same condition: a watch that ended must not stay in WatchList, and a stale mark must not make a later
+	// internal watch on the same name look user-added
+	for _, root := range append([]*ssa.Function{ro.API["Remove"]}, ro.Readers...) {
+		if root == nil {
+			continue
+		}
+		rw := a.walk(root)
+		userDel := map[string]DNF{}
+		for _, v := range rw.Visits {
+			if args, ok := isBuiltinCall(v.Instr, "delete"); ok && v.Ctx.fieldOfValue(args[0]) == kf.userTable {
+				k := stripIDs(v.Ctx.path(args[1]))
+				userDel[k] = userDel[k].or(v.Cond)
+			}
+		}
+		done := map[string]bool{}
+		for _, v := range rw.Visits {
+			args, ok := isBuiltinCall(v.Instr, "delete")
+			if !ok || v.Ctx.fieldOfValue(args[0]) != kf.pathTable {
+				continue
+			}
+			k := stripIDs(v.Ctx.path(args[1]))
+			key := sprintf("%s:release-clears-user-mark(%s)", shortFn(root), tail(stripCallArgs(k), 60))
+			if done[key] {
+				continue
+			}
+			done[key] = true
+			okc, wit := false, "no delete of the user mark for this name in this calling context"
+			if d, have := userDel[k]; have {
+				h, ctr, err := implies(v.Cond, d)
+				if err != nil {
+					a.R.fail("%v", err)
+				}
+				okc, wit = h, "user mark deleted whenever the path entry is"
+				if !h {
+					wit = "the user mark survives the release when " + stripIDs(ctr)
+				}
+			}
+			a.R.ob("C17.4", key, "releasing a watch (path-table delete) also deletes the path from the user-watch table", a.P.instrPos(v.Instr), okc, wit)
+		}
+	}
+	// the exported Remove reaches the removal unconditionally (once it is known that the watcher is open): no state of
+	// the tables makes it keep the descriptors of a listed path
+	if rm := ro.API["Remove"]; rm != nil {
+		found := false
+		for _, v := range a.walk(rm).Visits {
+			call, ok := v.Instr.(*ssa.Call)
+			if !ok || kf.inRemoval(v.Ctx) || !kf.removal[v.Ctx.calleeOf(&call.Call)] {
+				continue
+			}
+			found = true
+			uncond, bad := v.Cond.everyConj(func(c Conj) bool {
+				for _, l := range c {
+					if t, _ := ro.closedLit(l); !t {
+						return false
+					}
+				}
+				return true
+			})
+			wit := "reached whenever the watcher is open"
+			if !uncond {
+				wit = "the removal is skipped unless " + stripIDs(bad.String())
+			}
+			a.R.ob("C17.2", "Remove:always-removes", "the exported Remove hands every request to the removal function (which closes the descriptor of a listed path and of a directory's entries); nothing but the closed test stands in front of it", a.P.instrPos(call), uncond, wit)
+		}
+		if !found {
+			a.R.ob("C17.2", "Remove:always-removes", "the exported Remove reaches a removal function", a.P.pos(rm.Pos()), false, "no removal function is called from Remove")
 		}
 	}
 	a.R.ob("C17.4", "user-table:insert", "the user-watch table is inserted only by AddWith, after a successful add, under the cleaned path", a.P.pos(wl.Pos()), insOK && len(ins) >= 1, fmtList(uniq(ins)))
